@@ -17,7 +17,11 @@ use std::future::Future;
 use std::mem::MaybeUninit;
 use std::pin::Pin;
 use std::task::{Context, Poll, RawWaker, RawWakerVTable, Waker};
-use std::time::{Duration, Instant};
+use std::time::Duration;
+#[cfg(not(all(excsn_fibre_verif, not(loom))))]
+use std::time::Instant;
+#[cfg(all(excsn_fibre_verif, not(loom)))]
+use crate::internal::sync::Instant;
 
 // `hint::spin_loop` routes through the facade so the PARK_CONSUMING waits below
 // are scheduler yield-points loom can explore rather than branch-cap blowups.
